@@ -278,6 +278,12 @@ def run(chk):
     # ---------------- direction G ----------------
     res_t = chk.replay("bcl-toks", tok_cases, "toks", workers=W, timeout="20s")
     chk.absorb("bcl-toks", tok_cases, res_t)
+    if prop in ("C09", "C19"):
+        # the same token sequences away from the first lines of the file (line-number dependent behaviour)
+        shifted = [{"toks": c["toks"], "shift": True, "cls": "shifted"} for c in tok_cases if c.get("toks")]
+        res_s = chk.replay("bcl-toks", shifted, "shifted", workers=W, timeout="20s")
+        chk.absorb("bcl-toks", shifted, res_s)
+        chk.extra_cov["shifted_token_sequences"] = len(shifted)
     res_r = chk.replay("bcl-toks", raw, "raw", workers=W, timeout="20s")
     chk.absorb("bcl-toks", raw, res_r)
     res_l = []
